@@ -61,7 +61,7 @@ SINKS = {  # dotted name -> (index of the path argument, label)
     "shutil.copyfile": (1, "shutil.copyfile"), "shutil.copytree": (1, "shutil.copytree"),
     "os.rename": (1, "os.rename"), "os.replace": (1, "os.replace"),
 }
-MAX_DEPTH = 3
+MAX_DEPTH = 5
 OWN_MUTATION_ADEQUACY = True  # the thorough tier below runs its own in-memory mutants and repaired fixtures
 
 
@@ -254,6 +254,48 @@ class World:
     def __init__(self, repo, overrides=None):
         self.repo = repo
         self.overrides = overrides or {}  # (module relpath, name) -> replacement ast.FunctionDef (mutation runs)
+        self.objects = {}                 # object id -> {attribute: term}   (instances of repository classes built during the run)
+        self.obj_class = {}               # object id -> (module, ClassDef)
+
+    def cls(self, module, name, local_imports):
+        """bare name -> (module, ClassDef) or None"""
+        if name in local_imports:
+            mod, attr = local_imports[name]
+            m = self.repo.by_dotted(mod)
+            if m is not None and attr in m.classes:
+                return m, m.classes[attr].node
+            return None
+        r = module.resolve_name(name)
+        if r and r[0] == "class":
+            return r[1].module, r[1].node
+        return None
+
+    def method(self, oid, name):
+        """method lookup on an instance (own class, then bases of the same module)"""
+        mod, cnode = self.obj_class[oid]
+        seen, todo = set(), [cnode]
+        while todo:
+            c = todo.pop(0)
+            if id(c) in seen:
+                continue
+            seen.add(id(c))
+            for n in c.body:
+                if isinstance(n, ast.FunctionDef) and n.name == name:
+                    return mod, n
+            for b in c.bases:
+                if isinstance(b, ast.Name) and b.id in mod.classes:
+                    todo.append(mod.classes[b.id].node)
+        return None
+
+    def new_object(self, mod, cnode):
+        oid = len(self.objects) + 1
+        self.objects[oid] = {}
+        self.obj_class[oid] = (mod, cnode)
+        return ("obj", cnode.name, oid)
+
+    def set_attr(self, oid, attr, v):
+        old = self.objects[oid].get(attr)
+        self.objects[oid][attr] = v if old is None or old == v else phi(old, v)
 
     def func(self, module, name, local_imports):
         """bare name -> (module, FunctionDef) or None"""
@@ -293,6 +335,7 @@ class Exec:
         self.notes = notes if notes is not None else []
         self.local_imports = {}
         self.returns = []
+        self.yields = []
         self.guards = 0
 
     # ---- sinks -----------------------------------------------------------
@@ -316,6 +359,8 @@ class Exec:
             return self.env.get(e.id, ("unknown", e.id))
         if isinstance(e, ast.Attribute):
             v = self.ev(e.value)
+            if v[0] == "obj":
+                return self.world.objects[v[2]].get(e.attr, ("unknown", e.attr))
             if is_tainted(v):
                 self.labels.add(e.attr)
                 return dex(e.attr)
@@ -360,8 +405,15 @@ class Exec:
             return ("unknown", "bool")
         if isinstance(e, ast.Slice):
             return ("unknown", "slice")
-        if isinstance(e, (ast.Await, ast.Yield, ast.YieldFrom)):
-            _err("%s: generators/coroutines are outside the fragment" % self.fn.name)
+        if isinstance(e, ast.Yield):
+            self.yields.append(self.ev(e.value) if e.value is not None else const(None))
+            return ("unknown", "sent")
+        if isinstance(e, ast.YieldFrom):
+            v = self.ev(e.value)
+            self.yields.append(v[2][0] if (v[0] == "op" and v[1] == "gen") else op("elem", v))
+            return ("unknown", "sent")
+        if isinstance(e, ast.Await):
+            _err("%s: coroutines are outside the fragment" % self.fn.name)
         return ("unknown", type(e).__name__)
 
     def ev_effects(self, e):
@@ -492,6 +544,18 @@ class Exec:
                     return ("saferel", a[2][0])
                 return op("meth:join", const(recv.value), a)
             rv = self.ev(recv)
+            if rv[0] == "obj":
+                target = self.world.method(rv[2], attr)
+                if target is not None and self.depth < MAX_DEPTH and not any(n == attr for _, n in self.stack):
+                    mod, fnode = target
+                    decos = [dotted(d) for d in fnode.decorator_list]
+                    pargs = [self.ev(a) for a in e.args]
+                    if "staticmethod" not in decos:
+                        pargs = [rv if "classmethod" not in decos else ("unknown", "cls")] + pargs
+                    res = self.inline(e, attr, mod, fnode, pargs, {k: self.ev(v) for k, v in kw.items()})
+                    return ("call", attr, tuple(pargs[1:] if "staticmethod" not in decos else pargs), res)
+                if target is None and attr in self.world.objects[rv[2]]:
+                    return ("call", attr, tuple(self.ev(a) for a in e.args), None)
             args = [self.ev(a) for a in e.args] + [self.ev(v) for v in kw.values()]
             if attr in STRING_METHODS:
                 return op("meth:" + attr, rv, *args)
@@ -502,6 +566,15 @@ class Exec:
         # --- plain function calls
         args = [self.ev(a) for a in e.args]
         kwargs = {k: self.ev(v) for k, v in kw.items()}
+        if isinstance(e.func, ast.Name) and e.func.id not in self.env:
+            ctarget = self.world.cls(self.module, e.func.id, self.local_imports)
+            if ctarget is not None and self.depth < MAX_DEPTH:
+                cmod, cnode = ctarget
+                obj = self.world.new_object(cmod, cnode)
+                init = self.world.method(obj[2], "__init__")
+                if init is not None:
+                    self.inline(e, cnode.name + ".__init__", init[0], init[1], [obj] + args, kwargs)
+                return obj
         if isinstance(e.func, ast.Name):
             name = e.func.id
             target = None if name in self.env else self.world.func(self.module, name, self.local_imports)
@@ -534,6 +607,8 @@ class Exec:
         sub = Exec(self.world, mod, fnode, env, self.depth + 1, self.stack + ((call, name),), self.hits, self.labels, self.notes)
         sub.block(fnode.body)
         self.guards += sub.guards
+        if sub.yields:
+            return op("gen", phi(*sub.yields))   # a generator: the terms its elements can be
         if not sub.returns:
             return const(None)
         return phi(*sub.returns)
@@ -648,8 +723,22 @@ class Exec:
         elif isinstance(target, (ast.Tuple, ast.List)):
             for x in target.elts:
                 self.bind(x.value if isinstance(x, ast.Starred) else x, op("elem", v))
+        elif isinstance(target, ast.Attribute):
+            o = self.ev(target.value)
+            if o[0] == "obj":
+                self.world.set_attr(o[2], target.attr, v)
         else:
-            self.ev(target.value if isinstance(target, (ast.Attribute, ast.Subscript)) else target)
+            self.ev(target.value if isinstance(target, ast.Subscript) else target)
+
+    @staticmethod
+    def element(it):
+        """term of one element of an iterable term"""
+        u = unwrap(it)
+        if u[0] == "op" and u[1] == "gen":
+            return u[2][0]
+        if u[0] == "op" and u[1] == "phi" and all(x[0] == "op" and x[1] == "gen" for x in map(unwrap, u[2])):
+            return phi(*[unwrap(x)[2][0] for x in u[2]])
+        return op("elem", it)
 
     def branch(self, body, env):
         saved = self.env
@@ -690,6 +779,10 @@ class Exec:
             v = self.ev(s.value)
             if isinstance(s.target, ast.Name):
                 self.env[s.target.id] = op("concat", self.env.get(s.target.id, ("unknown", s.target.id)), v)
+            elif isinstance(s.target, ast.Attribute):
+                o = self.ev(s.target.value)
+                if o[0] == "obj":
+                    self.world.set_attr(o[2], s.target.attr, op("concat", self.world.objects[o[2]].get(s.target.attr, ("unknown", s.target.attr)), v))
         elif isinstance(s, ast.If):
             g = self.guard(s.test)
             self.ev_effects(s.test) if isinstance(s.test, (ast.Compare, ast.BoolOp, ast.UnaryOp)) else self.ev(s.test)
@@ -710,7 +803,7 @@ class Exec:
             it = self.ev(s.iter)
             before = dict(self.env)
             for _ in range(2):
-                self.bind(s.target, op("elem", it))
+                self.bind(s.target, self.element(it))
                 self.block(s.body)
                 self.env = self.merge(before, self.env)
             self.block(s.orelse)
